@@ -705,6 +705,22 @@ fn expected_filtered(input: &[u8], argv: &[String]) -> Option<Vec<u8>> {
 
 /// Bounded reaction of the reader to the stop flag, whoever raised it (C17).
 fn reaction_bound(ex: &mut Executor, r: &ExecResult, v: &ExecSpec) -> Option<Fail> {
+    // What is still to be worked off when the stop flag goes up is bounded by the program's configuration
+    // (queue capacities), not by the input: no data queue holds more undelivered packets than the largest
+    // capacity configured for a data queue in this run.
+    if let Some((worst, bound)) = r.outcome.backlog_at_stop {
+        if bound > 0 && worst > bound {
+            return Some(Fail::new(
+                "early-stop",
+                "backlog-at-stop-not-bounded-by-configuration",
+                format!(
+                    "at the stop event one data queue holds {worst} undelivered messages; the largest capacity configured for a data queue in this run is {bound} [cmd: {}]",
+                    v.cmdline()
+                ),
+            ));
+        }
+        ex.probe(if worst == 0 { "backlog_at_stop=0" } else if worst * 2 <= bound { "backlog_at_stop<=half_capacity" } else { "backlog_at_stop<=capacity" });
+    }
     if let Some(after) = r.io.input_bytes_after_stop {
         // in units of one reader batch (100 packets of the largest packet of this input)
         let w = itsgen::walker::walk(&v.input);
@@ -751,6 +767,9 @@ fn run_early_stop(
     label: &str,
 ) -> TrialOutcome {
     use fpsim_rt::rng::Rng;
+    if base.input_repeat.map_or(false, |n| n >= crate::scenarios::ENDLESS) {
+        return run_endless(ex, base, allowed_status, label);
+    }
     // reference: same spec without the injected stop
     let mut reference = base.clone();
     reference.stop_at_step = None;
@@ -884,6 +903,51 @@ fn run_early_stop(
             return out;
         }
     }
+    out
+}
+
+/// C17 on an input that never ends: the stop condition is the only way out.
+fn run_endless(ex: &mut Executor, base: &ExecSpec, allowed_status: &[i32], label: &str) -> TrialOutcome {
+    let r = ex.exec(base);
+    ex.fault("input_that_never_ends");
+    if base.io.stop_at_input_byte.is_some() && r.outcome.stop_injected_at.is_some() {
+        ex.fault("stop_event_at_input_byte_k");
+    }
+    let mut out = TrialOutcome {
+        nontrivial: r.outcome.threads >= 3,
+        key: case_key(&base.input, &r),
+        labels: vec![label.to_string()],
+        ..Default::default()
+    };
+    if r.outcome.budget_exceeded || r.end == crate::exec::EndKind::Timeout {
+        out.fail = Some(Fail::new(
+            "early-stop",
+            "never-ends-on-input-that-never-ends",
+            format!(
+                "the run did not end within its budget of decision steps ({} steps taken, stop event injected at step {:?}) on an input that keeps coming ({} input bytes read, stop flag seen set: {}) [cmd: {}]",
+                r.outcome.steps,
+                r.outcome.stop_injected_at,
+                r.io.input_bytes,
+                r.io.input_bytes_after_stop.is_some(),
+                base.cmdline()
+            ),
+        ));
+        return out;
+    }
+    if let Some(f) = check_orderly(&r) {
+        out.fail = Some(f);
+        return out;
+    }
+    if !allowed_status.contains(&r.status) {
+        out.fail = Some(Fail::new("exit-status", "exit-status-set", format!("exit status {} not in {:?} [cmd: {}]", r.status, allowed_status, base.cmdline())));
+        return out;
+    }
+    ex.probe(match r.outcome.steps {
+        0..=999 => "endless_input_run_ended_within_1k_steps",
+        1000..=9999 => "endless_input_run_ended_within_10k_steps",
+        _ => "endless_input_run_ended_within_budget",
+    });
+    out.fail = reaction_bound(ex, &r, base);
     out
 }
 
